@@ -85,19 +85,19 @@ AllK(s, ks) == \A i \in 1..Len(s) : s[i].k \in ks
 \* a strict total order exists on s and ties are only between identical values
 SortableSeq(s) ==
   /\ (AllK(s, {"int", "flt"}) \/ AllK(s, {"str"}))
-  /\ \A i, j \in 1..Len(s) : (Less3(s[i], s[j]) = "f" /\ Less3(s[j], s[i]) = "f") => s[i] = s[j]
+  /\ \A i, j \in 1..Len(s) : (Less3(s[i], s[j]) = "f" /\ Less3(s[j], s[i]) = "f") => Same(s[i], s[j])
 ValLess(a, b) == Less3(a, b) = "t"
 
 KeyOf(e, key) == IF e.k = "map" /\ MapHas(e, key) THEN MapGet(e, key) ELSE Nil
 SortByKey(s, key) ==
-  LET lacking == SelectSeq(s, LAMBDA e : KeyOf(e, key) = Nil)
-      having == SelectSeq(s, LAMBDA e : KeyOf(e, key) # Nil)
+  LET lacking == SelectSeq(s, LAMBDA e : IsNil(KeyOf(e, key)))
+      having == SelectSeq(s, LAMBDA e : ~IsNil(KeyOf(e, key)))
       keys == [i \in 1..Len(having) |-> KeyOf(having[i], key)]
       \* ties between distinct entries are undecided (Go's sort is not stable)
       decided == /\ (AllK(keys, {"int", "flt"}) \/ AllK(keys, {"str"}))
                  /\ \A i, j \in 1..Len(having) :
-                      (Less3(keys[i], keys[j]) = "f" /\ Less3(keys[j], keys[i]) = "f") => having[i] = having[j]
-                 /\ \A i, j \in 1..Len(lacking) : lacking[i] = lacking[j]
+                      (Less3(keys[i], keys[j]) = "f" /\ Less3(keys[j], keys[i]) = "f") => Same(having[i], having[j])
+                 /\ \A i, j \in 1..Len(lacking) : Same(lacking[i], lacking[j])
   IN  IF decided
       THEN FVal(Arr(lacking \o SortBy(having, LAMBDA x, y : ValLess(KeyOf(x, key), KeyOf(y, key)))))
       ELSE FUnspec
@@ -105,15 +105,15 @@ SortByKey(s, key) ==
 RECURSIVE UniqSeq(_, _)
 UniqSeq(s, seen) ==
   IF s = <<>> THEN <<>>
-  ELSE IF \E i \in 1..Len(seen) : seen[i] = Head(s) THEN UniqSeq(Tail(s), seen)
+  ELSE IF \E i \in 1..Len(seen) : Same(seen[i], Head(s)) THEN UniqSeq(Tail(s), seen)
   ELSE <<Head(s)>> \o UniqSeq(Tail(s), Append(seen, Head(s)))
 \* uniq is decided when "distinct" is unambiguous: no two elements that are
 \* == but not identical (1 vs 1.0), and no element whose equality is open
 UniqDecided(s) == \A i, j \in 1..Len(s) :
-                     LET e == Eq3(s[i], s[j]) IN e # "u" /\ (e = "t" => s[i] = s[j])
+                     LET e == Eq3(s[i], s[j]) IN e # "u" /\ (e = "t" => Same(s[i], s[j]))
 
 JoinItems(s, sep) ==
-  LET kept == SelectSeq(s, LAMBDA e : e # Nil)
+  LET kept == SelectSeq(s, LAMBDA e : ~IsNil(e))
       ts == [i \in 1..Len(kept) |-> ScalarText(kept[i])]
   IN  IF \A i \in 1..Len(ts) : ts[i].ok
       THEN FVal(Str(JoinWith([i \in 1..Len(ts) |-> ts[i].s], sep)))
@@ -123,7 +123,7 @@ ArrayFilter(name, a, args) ==
   LET n == Len(args)
       arg1 == IF n >= 1 THEN args[1] ELSE Nil
   IN
-  CASE name = "compact" -> FVal(Arr(SelectSeq(a, LAMBDA e : e # Nil)))
+  CASE name = "compact" -> FVal(Arr(SelectSeq(a, LAMBDA e : ~IsNil(e))))
     [] name = "reverse" -> FVal(Arr(Rev(a)))
     [] name = "first" -> FVal(IF a = <<>> THEN Nil ELSE a[1])
     [] name = "last" -> FVal(IF a = <<>> THEN Nil ELSE a[Len(a)])
